@@ -107,8 +107,9 @@ claim("C06", "proof",
 
 claim("C18", "other",
       "Sequential obligations only: every visit entry point (VisitItemsAscend/Descend and the Ex variants, which the iterator's producer runs) releases the version it pinned on every path, error paths included (rootNodeLoc.refs is unchanged at exit: a postcondition), "
-      "no gkvlite lock is held while a visitor callback, a comparator or a StoreFile method runs (lock-set obligations at every callback site), every function under contract returns with the lock set it was entered with, and newIterator hands the requested target/value mode to the producer.",
-      A_COMMON + " The Next/Close/iterate channel handshake, goroutine exit and re-entrant callbacks are NOT decided: goroutines and channel operations are outside the verifier's subset (family limit; a model checker is the fitting tool).")
+      "no gkvlite lock is held while a visitor callback, a comparator or a StoreFile method runs (lock-set obligations at every callback site), the version stays pinned for the whole visit (ghost assertion after visitNodes), every function under contract returns with the lock set it was entered with, and newIterator hands the requested target/value mode to the producer. "
+      "BOUNDED (stand-in, not a proof): the Next/Close/iterate handshake and re-entrant callbacks are run on the real code for every collection size 0..8 (thorough: 0..24), every number of Next() calls before Close() (0..n+1, i.e. including 'before the first Next' and 'after exhaustion'), both directions and value modes, plus visits whose visitor re-enters reads and (from the mutating goroutine) Set/Delete -- each under a 5 s watchdog, checking the delivered sequence, Next()==false after Close(), idempotent Close(), and that the producer releases its pin (goroutine exit).",
+      A_COMMON + " Why bounded: goroutines and channel operations are outside the verifier's subset; the harness does NOT enumerate scheduler interleavings (each case is repeated), so 'for all schedules' is not decided -- a model checker would be the fitting tool for that clause.")
 
 claim("C16", "other",
       "Two parts, labelled separately. PROVED (obligations): Len cannot panic at any size (the nil item of an empty collection is handled -- D2 found by the nil-dereference obligation and repaired), releases the reference MinItem takes (D12, repaired), reads no value byte and changes no version; its counting visitor counts every call and satisfies the visitor contract; determineBlocks yields at most 1024 blocks of positive length. "
